@@ -444,6 +444,13 @@ func (e *Env) applyCli(op *Op) []string {
 			}
 		}
 	} else if e.f != nil {
+		if c.Cmd == "new" {
+			// what the library's CreateContainerAtPath leaves at that path, whatever was there before:
+			// an empty image and not a byte more
+			if st, err := os.Stat(e.path); err == nil && st.Size() != e.f.DataOffset()+e.f.DataSize() {
+				viol("C15:differs-from-library", fmt.Sprintf("new left a file of %d bytes, the image it created ends at %d (sif.CreateContainerAtPath leaves nothing behind it)", st.Size(), e.f.DataOffset()+e.f.DataSize()))
+			}
+		}
 		switch c.Cmd {
 		case "header", "list", "info":
 			if c.Cmd == "info" && e.stats != nil {
